@@ -79,8 +79,14 @@ func (p *Impl) OnTerminate() {
 // EchoResult is what echo computes for an argument.
 func EchoResult(x int32) int32 { return 3*x + 1 }
 
+// EchoError is the error echo answers a negative argument with.
+func EchoError(x int32) string { return fmt.Sprintf("echo refuses %d", x) }
+
 func (p *Impl) Echo(x int32) (int32, error) {
 	p.count(fmt.Sprintf("echo(%d)", x))
+	if x < 0 {
+		return 0, fmt.Errorf("%s", EchoError(x))
+	}
 	return EchoResult(x), nil
 }
 
